@@ -22,7 +22,7 @@ func init() {
 				"(C08.leaf) the block table installed is the *incoming* template's processedBlocks; (C08.lookup) a block definition site executes getBlock(name) if present else itself, a yield " +
 				"executes getBlock(name) or fails, getBlock walks the parent chain, imported roots are never executed; (C08.params) yield arguments are bound before defaults, defaults only " +
 				"when not already bound; (C08.content) the content closure switches to the captured caller scope/content before running the content list and restores the callee's afterwards; " +
-				"(C08.header) extends after an import or a second extends reaches a no-return error.",
+				"(C08.header) extends after an import or a second extends reaches a no-return error. (C08.params, path form) a block parameter's default is stored only on paths where a presence test `_, ok := variables[<the very name stored>]` answered no (kept per name in a register: the flag may be local to an if; re-defining a variable the name is built from forgets it); the yield's arguments are bound before (also across a helper); both loops walk their whole list (plain index walk or range, no way out but a return; `continue` in the defaults loop only where the name is known bound).",
 			NotDecided:  "argument values, recursion depth, run-time string equality of names; scope release and context restore around the block body are C07.scope / C07.ctx.",
 			Assumptions: []string{"Template fields are immutable after parse (C11.frozen), so facts about t.extends survive calls"},
 			Trusted:     commonTrusted,
@@ -41,7 +41,7 @@ func init() {
 			{Name: "block definition site always renders its own definition", File: "eval.go", Old: "\t\t\tblock, has := st.getBlock(node.Name)\n\t\t\tif has == false {\n\t\t\t\tblock = node\n\t\t\t}", New: "\t\t\tblock, has := st.getBlock(node.Name)\n\t\t\tif has == false || block != node {\n\t\t\t\tblock = node\n\t\t\t}", Rule: "C08.lookup"},
 			{Name: "defaults overwrite the yield's arguments", File: "eval.go", Old: "\t\t\tif _, found := st.variables[p.Identifier]; !found {\n\t\t\t\tif p.Expression == nil {", New: "\t\t\tif _, found := st.variables[p.Identifier]; !found || p.Expression != nil {\n\t\t\t\tif p.Expression == nil {", Rule: "C08.params"},
 			{Name: "content runs in the callee's scope", File: "eval.go", Old: "\t\t\tst.scope = myscope\n\t\t\tst.content = mycontent\n", New: "\t\t\t_ = myscope\n\t\t\tst.content = mycontent\n", Rule: "C08.content"},
-			{Name: "content closure does not restore the callee's content", File: "eval.go", Old: "\t\t\tst.scope = outscope\n\t\t\tst.content = outcontent\n", New: "\t\t\tst.scope = outscope\n\t\t\t_ = outcontent\n", Rule: "C08.content"},
+			{Name: "content closure does not restore the callee's content", File: "eval.go", Old: "\t\t\t\tst.scope = outscope\n\t\t\t\tst.content = outcontent\n", New: "\t\t\t\tst.scope = outscope\n\t\t\t\t_ = outcontent\n", Rule: "C08.content"},
 			{Name: "second extends silently accepted", File: "parse.go", Old: "\t\t\t\t\tif t.extends != nil {\n\t\t\t\t\t\tt.errorf(\"Unexpected extends clause: each template can only extend one template\")\n\t\t\t\t\t} else if len(t.imports) > 0 {", New: "\t\t\t\t\tif len(t.imports) > 0 {", Rule: "C08.header"},
 			{Name: "getBlock looks at the innermost scope only", File: "eval.go", Old: "\tfor !has && st.parent != nil {\n\t\tst = st.parent\n\t\tblock, has = st.blocks[name]\n\t}\n", New: "", Rule: "C08.lookup"},
 			{Name: "parseBlock registers blocks only once (first definition in a file wins)", File: "parse.go", Old: "\tt.passedBlocks[block.Name] = block\n", New: "\tif _, dup := t.passedBlocks[block.Name]; !dup {\n\t\tt.passedBlocks[block.Name] = block\n\t}\n", Rule: "C08.order"},
@@ -708,61 +708,184 @@ func c08params(c *an.Ctx) {
 		c.Anchor("C08.params", "block/yield parameter lists of executeYieldBlock")
 		return
 	}
+	// which parameter list an expression is an element of: follows locals to their definitions and a helper's
+	// parameters to what the call binds them to
+	var listOf func(e ast.Expr, depth int) string
+	listOf = func(e ast.Expr, depth int) string {
+		out := "?"
+		if depth > 4 || e == nil {
+			return out
+		}
+		ast.Inspect(e, func(n ast.Node) bool {
+			id, ok := n.(*ast.Ident)
+			if !ok || out != "?" {
+				return out == "?"
+			}
+			obj := boundObj(p, f, id)
+			switch obj {
+			case types.Object(yieldParam):
+				out = "yield"
+				return false
+			case types.Object(blockParam):
+				out = "block"
+				return false
+			}
+			if v, isVar := obj.(*types.Var); isVar && !v.IsField() && v.Pkg() != nil && v.Parent() != v.Pkg().Scope() {
+				for _, d := range an.LocalDefs(f, v) {
+					if d == nil {
+						continue
+					}
+					if _, isIx := an.Unparen(stripAddr(d)).(*ast.IndexExpr); !isIx {
+						continue // (the element, not a count or an index)
+					}
+					if l := listOf(d, depth+1); l != "?" {
+						out = l
+						return false
+					}
+				}
+			}
+			return true
+		})
+		return out
+	}
 	// stores into variables[<x>.Identifier]; classify by which list x ranges over
 	type store struct {
 		list string
 		as   *ast.AssignStmt
+		ix   *ast.IndexExpr
 	}
 	var stores []store
+	// presence tests: `_, ok := variables[<name>]`
+	type lookup struct {
+		ok *ast.Ident
+		ix *ast.IndexExpr
+	}
+	var lookups []lookup
 	an.InspectOwn(f, func(n ast.Node) bool {
 		as, ok := n.(*ast.AssignStmt)
-		if !ok || len(as.Lhs) != 1 {
+		if !ok {
+			return true
+		}
+		if len(as.Lhs) == 2 && len(as.Rhs) == 1 {
+			if ix, ok := an.Unparen(as.Rhs[0]).(*ast.IndexExpr); ok && p.FieldKey(info, ix.X) == "scope.variables" {
+				if id, ok := as.Lhs[1].(*ast.Ident); ok && id.Name != "_" {
+					lookups = append(lookups, lookup{id, ix})
+				}
+			}
+			return true
+		}
+		if len(as.Lhs) != 1 {
 			return true
 		}
 		ix, ok := as.Lhs[0].(*ast.IndexExpr)
 		if !ok || p.FieldKey(info, ix.X) != "scope.variables" {
 			return true
 		}
-		k := an.Norm(f, ix.Index)
-		list := "?"
-		switch {
-		case strings.Contains(k, "$p2.List["):
-			list = "yield"
-		case strings.Contains(k, "$p1.List["):
-			list = "block"
-		default:
-			// p := &yieldParam.List[i] is defined inside the loop: resolve through the local's definition
-			if sel, ok := ix.Index.(*ast.SelectorExpr); ok {
-				if id, ok := an.Unparen(sel.X).(*ast.Ident); ok {
-					for _, d := range an.LocalDefs(f, an.ObjOf(info, id)) {
-						if d == nil {
-							continue
-						}
-						ds := an.Str(d)
-						// nearest enclosing definition wins: pick the one in the same loop
-						for _, enc := range an.EnclosingStmts(f, as) {
-							if fs, ok := enc.(*ast.ForStmt); ok && fs.Pos() <= d.Pos() && d.End() <= fs.End() {
-								if strings.Contains(ds, an.RoleOf(yieldParam)+".List[") {
-									list = "yield"
-								} else if strings.Contains(ds, an.RoleOf(blockParam)+".List[") {
-									list = "block"
-								}
-							}
-						}
-					}
-				}
-			}
-		}
-		stores = append(stores, store{list, as})
+		stores = append(stores, store{listOf(ix.Index, 0), as, ix})
 		return true
 	})
 	c.Expect("C08.params", "parameter stores in executeYieldBlock", len(stores), 3)
-	var targets []ast.Node
-	for _, s := range stores {
-		targets = append(targets, s.as)
+	// the parameter loops
+	type loop struct {
+		n    ast.Node
+		body *ast.BlockStmt
+		list string
 	}
-	pr := p.ProbeFn(f, targets, an.Hooks{})
-	c.States += pr.X.Visited
+	var loops []loop
+	an.InspectOwn(f, func(n ast.Node) bool {
+		var body *ast.BlockStmt
+		switch l := n.(type) {
+		case *ast.ForStmt:
+			body = l.Body
+		case *ast.RangeStmt:
+			body = l.Body
+		default:
+			return true
+		}
+		for _, s := range stores {
+			if s.as.Pos() >= body.Pos() && s.as.End() <= body.End() {
+				loops = append(loops, loop{n, body, s.list})
+				break
+			}
+		}
+		return true
+	})
+	inBlockLoop := func(pos token.Pos) bool {
+		for _, l := range loops {
+			if l.list == "block" && pos >= l.body.Pos() && pos < l.body.End() {
+				return true
+			}
+		}
+		return false
+	}
+	// explore: what is known about the presence of a name is kept in a register keyed by the name looked up
+	// (the comma-ok variable is often local to an if); re-defining a variable the name is built from forgets it
+	storeBad := map[*ast.AssignStmt]bool{}
+	storeSeen := map[*ast.AssignStmt]bool{}
+	matched := false
+	contBad := token.NoPos
+	isStore := map[ast.Node]*store{}
+	for i := range stores {
+		isStore[stores[i].as] = &stores[i]
+	}
+	x := p.NewExplorer(f, an.Hooks{
+		Branch: func(x *an.Explorer, cond ast.Expr, val bool, st *an.State) {
+			for _, l := range lookups {
+				k, ok := x.Key(l.ix.Index)
+				if !ok {
+					continue
+				}
+				if t, known := x.Truth(l.ok, st); known {
+					if t {
+						st.Set("pres:"+k, "bound")
+					} else {
+						st.Set("pres:"+k, "unbound")
+					}
+				}
+			}
+		},
+		Assign: func(x *an.Explorer, lhs, rhs ast.Expr, stmt ast.Node, st *an.State) {
+			id, ok := an.Unparen(lhs).(*ast.Ident)
+			if !ok {
+				return
+			}
+			if ak, ok := x.Key(id); ok {
+				for k := range st.Regs {
+					if strings.HasPrefix(k, "pres:") && strings.Contains(k, ak) {
+						st.Set(k, "")
+					}
+				}
+			}
+		},
+		Stmt: func(x *an.Explorer, n ast.Node, st *an.State) {
+			if s := isStore[n]; s != nil && s.list == "block" {
+				storeSeen[s.as] = true
+				k, ok := x.Key(s.ix.Index)
+				if !ok || st.Get("pres:"+k) != "unbound" {
+					storeBad[s.as] = true
+				} else {
+					matched = true
+				}
+			}
+			if b, ok := n.(*ast.BranchStmt); ok && b.Tok == token.CONTINUE && inBlockLoop(b.Pos()) {
+				bound := false
+				for k, v := range st.Regs {
+					if strings.HasPrefix(k, "pres:") && v == "bound" {
+						bound = true
+					}
+				}
+				if !bound && contBad == token.NoPos {
+					contBad = b.Pos()
+				}
+			}
+		},
+	})
+	x.Run(nil)
+	c.States += x.Visited
+	if x.Undecided != "" {
+		c.Undecided("C08.params", "(*Runtime).executeYieldBlock/default-only-if-unbound", f.Pos(), "%s", x.Undecided)
+		return
+	}
 	lastYield, firstBlock := token.NoPos, token.NoPos
 	for _, s := range stores {
 		switch s.list {
@@ -774,111 +897,107 @@ func c08params(c *an.Ctx) {
 			if firstBlock == token.NoPos || s.as.Pos() < firstBlock {
 				firstBlock = s.as.Pos()
 			}
-			ok := len(pr.At[s.as]) > 0
-			for _, st := range pr.At[s.as] {
-				if !an.FactIs(st, "found", false) {
-					ok = false
-				}
-			}
-			c.Check(ok, "C08.params", "(*Runtime).executeYieldBlock/default-only-if-unbound", s.as.Pos(), "a declared parameter gets its default only when the yield did not bind it",
+			c.Check(storeSeen[s.as] && !storeBad[s.as], "C08.params", "(*Runtime).executeYieldBlock/default-only-if-unbound", s.as.Pos(), "a declared parameter gets its default only when the yield did not bind it",
 				"a block parameter's default is stored on a path where the name may already be bound by the yield's argument: arguments are overwritten by defaults")
 		default:
 			c.Bad("C08.params", "(*Runtime).executeYieldBlock/store", s.as.Pos(), nil, "a variable store in executeYieldBlock is keyed by neither the yield's nor the block's parameter list")
 		}
 	}
-	c.Check(lastYield != token.NoPos && firstBlock != token.NoPos && lastYield < firstBlock, "C08.params", "(*Runtime).executeYieldBlock/args-before-defaults", f.Pos(),
+	c.Check(lastYield != token.NoPos && firstBlock != token.NoPos && c08before(p, f, lastYield, firstBlock), "C08.params", "(*Runtime).executeYieldBlock/args-before-defaults", f.Pos(),
 		"the yield's arguments are bound before the block's defaults are considered", "the yield's arguments are not bound before the block's declared parameters are defaulted")
-	// both parameter loops visit every element: `for i := 0; i < len(<list>.List); i++` (or a range) without early exit
-	nLoops := 0
-	an.InspectOwn(f, func(n ast.Node) bool {
-		var body *ast.BlockStmt
-		header := ""
-		switch l := n.(type) {
-		case *ast.ForStmt:
-			body = l.Body
-			header = strings.ReplaceAll(an.Str(l.Cond), " ", "")
-			if l.Cond == nil {
-				header = "<none>"
-			}
-		case *ast.RangeStmt:
-			body = l.Body
-		default:
-			return true
-		}
-		hasStore := false
-		for _, s := range stores {
-			if s.as.Pos() >= body.Pos() && s.as.End() <= body.End() {
-				hasStore = true
-			}
-		}
-		if !hasStore {
-			return true
-		}
-		nLoops++
+	// both parameter loops visit every element: a plain bound over the whole list (or a range), no way out of the
+	// loop from its body; `continue` leaves the rest of one element's handling out and is allowed in the defaults
+	// loop only where the name is known to be bound
+	for _, l := range loops {
 		complete := true
 		why := ""
-		if header != "" {
+		if fs, ok := l.n.(*ast.ForStmt); ok {
 			okHdr := false
-			for _, lst := range []string{an.RoleOf(blockParam), an.RoleOf(yieldParam)} {
-				if header == "i<len("+lst+".List)" {
-					okHdr = true
+			if b, ok := an.Unparen(fs.Cond).(*ast.BinaryExpr); ok && fs.Cond != nil && b.Op == token.LSS {
+				if call, ok := an.Unparen(b.Y).(*ast.CallExpr); ok && an.CalleeName(info, call) == "builtin.len" && len(call.Args) == 1 {
+					if sel, ok := an.Unparen(call.Args[0]).(*ast.SelectorExpr); ok && sel.Sel.Name == "List" && listOf(sel.X, 0) == l.list {
+						if as, ok := fs.Init.(*ast.AssignStmt); ok && len(as.Lhs) == 1 && len(as.Rhs) == 1 && an.Str(as.Rhs[0]) == "0" && an.Str(as.Lhs[0]) == an.Str(b.X) {
+							if inc, ok := fs.Post.(*ast.IncDecStmt); ok && inc.Tok == token.INC && an.Str(inc.X) == an.Str(b.X) {
+								okHdr = true
+							}
+						}
+					}
 				}
 			}
 			if !okHdr {
-				complete, why = false, "its condition is `"+header+"`, not a plain bound over the whole parameter list"
+				complete, why = false, "its header is `"+an.Str(fs.Init)+"; "+an.Str(fs.Cond)+"; "+an.Str(fs.Post)+"`, not a plain walk over the whole parameter list"
 			}
 		}
-		ast.Inspect(body, func(m ast.Node) bool {
+		if rs, ok := l.n.(*ast.RangeStmt); ok {
+			if sel, ok := an.Unparen(rs.X).(*ast.SelectorExpr); !ok || sel.Sel.Name != "List" || listOf(sel.X, 0) != l.list {
+				complete, why = false, "it ranges over `"+an.Str(rs.X)+"`, not over the parameter list whose names it binds"
+			}
+		}
+		ast.Inspect(l.body, func(m ast.Node) bool {
 			switch b := m.(type) {
 			case *ast.FuncLit:
 				return false
 			case *ast.BranchStmt:
+				if b.Tok == token.CONTINUE && l.list == "block" {
+					if contBad == b.Pos() {
+						complete, why = false, "it contains `continue` on a path where the name is not known to be bound"
+					}
+					return true
+				}
 				complete, why = false, "it contains `"+b.Tok.String()+"`"
 			case *ast.ReturnStmt:
 				complete, why = false, "it contains a return"
 			}
 			return true
 		})
-		c.Check(complete, "C08.params", "(*Runtime).executeYieldBlock/loop-complete", n.Pos(), "the parameter loop visits every element of its list",
+		c.Check(complete, "C08.params", "(*Runtime).executeYieldBlock/loop-complete", l.n.Pos(), "the parameter loop visits every element of its list",
 			"a parameter loop of executeYieldBlock may stop before every parameter was handled ("+why+"): omitted parameters do not get their defaults / arguments are not bound")
-		return true
-	})
-	c.Expect("C08.params", "parameter loops", nLoops, 2)
+	}
+	c.Expect("C08.params", "parameter loops", len(loops), 2)
+	// the presence test looks up the same key that is then stored (the registers are keyed by the name looked up)
+	c.Check(matched, "C08.params", "(*Runtime).executeYieldBlock/found-test", f.Pos(), "the presence test looks up the very name that is then defaulted, and the default is stored where it answered no",
+		"no default store of executeYieldBlock is guarded by a presence test `_, ok := variables[<name>]` of the very name being stored, answered no")
+}
 
-	// the found test looks up the same key it then stores
-	okFound := false
-	an.InspectOwn(f, func(n ast.Node) bool {
-		is, ok := n.(*ast.IfStmt)
-		if !ok || is.Init == nil {
-			return true
-		}
-		as, ok := is.Init.(*ast.AssignStmt)
-		if !ok || len(as.Lhs) != 2 || len(as.Rhs) != 1 {
-			return true
-		}
-		ix, ok := an.Unparen(as.Rhs[0]).(*ast.IndexExpr)
-		if !ok || p.FieldKey(info, ix.X) != "scope.variables" || an.Str(as.Lhs[1]) != "found" {
-			return true
-		}
-		cond := strings.ReplaceAll(an.Str(is.Cond), " ", "")
-		if cond != "!found" && cond != "found==false" {
-			return true
-		}
-		same := true
-		ast.Inspect(is.Body, func(m ast.Node) bool {
-			if s, ok := m.(*ast.AssignStmt); ok && len(s.Lhs) == 1 {
-				if six, ok := s.Lhs[0].(*ast.IndexExpr); ok && p.FieldKey(info, six.X) == "scope.variables" && an.Str(six.Index) != an.Str(ix.Index) {
-					same = false
+func stripAddr(e ast.Expr) ast.Expr {
+	if u, ok := an.Unparen(e).(*ast.UnaryExpr); ok && u.Op == token.AND {
+		return u.X
+	}
+	return e
+}
+
+// c08before: position a precedes position b in execution order — in the same function by source order; when one
+// of them lies in a new helper, by the order of the calls that lead to them
+func c08before(p *an.Prog, f *an.Fn, a, b token.Pos) bool {
+	fa, fb := p.OwnerFn(a), p.OwnerFn(b)
+	if fa == fb {
+		return a < b
+	}
+	// positions in f at which the helpers containing a and b are (transitively) called
+	at := func(pos token.Pos) token.Pos {
+		best := token.NoPos
+		an.InspectBody(f, func(n ast.Node) bool {
+			call, ok := n.(*ast.CallExpr)
+			if !ok {
+				return true
+			}
+			if h := p.NewHelperCallee(f, call); h != nil {
+				reach := p.Reach(h)
+				for g := range reach {
+					if g.Body != nil && pos >= g.Body.Pos() && pos < g.Body.End() {
+						best = call.Pos()
+					}
 				}
 			}
 			return true
 		})
-		if same {
-			okFound = true
+		if best == token.NoPos && f.Body != nil && pos >= f.Body.Pos() && pos < f.Body.End() {
+			best = pos
 		}
-		return true
-	})
-	c.Check(okFound, "C08.params", "(*Runtime).executeYieldBlock/found-test", f.Pos(), "`found` is the presence of the very name that is then defaulted, tested as !found", "the guard of the default stores is not exactly `_, found := variables[<name>]; !found` for the name being stored")
+		return best
+	}
+	pa, pb := at(a), at(b)
+	return pa != token.NoPos && pb != token.NoPos && pa < pb
 }
 
 // c08content: the closure installed in Runtime.content
@@ -1003,6 +1122,27 @@ func c08content(c *an.Ctx) {
 				st.Set("cur:content", an.Str(rhs))
 			}
 		},
+		// a deferred literal that stores a saved value back runs at every exit of the closure, failing ones included
+		Defer: func(x *an.Explorer, d *ast.DeferStmt, st *an.State) {
+			fl, ok := an.Unparen(d.Call.Fun).(*ast.FuncLit)
+			if !ok {
+				return
+			}
+			ast.Inspect(fl.Body, func(n ast.Node) bool {
+				an.Assigns(n, func(lhs, rhs ast.Expr, _ token.Token) {
+					if rhs == nil {
+						return
+					}
+					switch p.FieldKey(info, lhs) {
+					case "Runtime.scope":
+						st.Set("dres:scope", an.Str(rhs))
+					case "Runtime.content":
+						st.Set("dres:content", an.Str(rhs))
+					}
+				})
+				return true
+			})
+		},
 		Call: func(x *an.Explorer, call *ast.CallExpr, st *an.State) {
 			if !an.IsCallTo(info, call, execList) {
 				return
@@ -1025,7 +1165,8 @@ func c08content(c *an.Ctx) {
 			continue
 		}
 		for _, fl := range fields {
-			if ex.State.Get("cur:"+fl) != ex.State.Get("saved:"+fl) || ex.State.Get("saved:"+fl) == "" {
+			saved := ex.State.Get("saved:" + fl)
+			if (ex.State.Get("cur:"+fl) != saved && ex.State.Get("dres:"+fl) != saved) || saved == "" {
 				verdict[fl+"/restore"].bad = true
 				verdict[fl+"/restore"].msg = fmt.Sprintf("the content closure returns with Runtime.%s = %q instead of the value it had on entry (%q)", fl, ex.State.Get("cur:"+fl), ex.State.Get("saved:"+fl))
 			}
